@@ -22,7 +22,7 @@ RULE = (
     "distinct_nontrivial = distinct (sub-scenario, ploidy, number of SNVs, shuffle order hash | (breaks, n, result) | (threshold bucket, fixed-column pattern, trace hash))"
 )
 FAULT_KEYS = ["shuffle", "long_locus", "policy_first", "policy_last", "policy_adjacent", "policy_tape", "adversarial_choice", "row_permute"]
-PROBE_KEYS = ["sweeps_checked", "sweep_over_127", "partitions_checked", "max_breaks", "fixing_checked", "all_fixed", "some_fixed", "none_fixed",
+PROBE_KEYS = ["impossible_breaks_refused", "saturated_posterior_at_threshold_1", "sweeps_checked", "sweep_over_127", "partitions_checked", "max_breaks", "fixing_checked", "all_fixed", "some_fixed", "none_fixed",
               "threshold_near_skip", "fixed_multiallelic"]
 OPTIONAL_PROBES = {"quick": ("threshold_near_skip",), "thorough": ()}
 COMPONENTS = {
@@ -63,7 +63,7 @@ def gen_config(rng, tier, index=0):
         return cfg
     if kind == "breaks":
         n = rng.choice([1, 2, 3, 5, 10, 50, 127, 128, 200, rng.randint(1, 200)])
-        b = rng.choice([0, n - 1, max(0, n - 2), rng.randint(0, n - 1), rng.randint(0, n - 1)])
+        b = rng.choice([0, n - 1, max(0, n - 2), rng.randint(0, n - 1), rng.randint(0, n - 1), rng.randint(0, n - 1), n, n + rng.choice([1, 2, 5])])
         return {"kind": "breaks", "n": n, "breaks": b, "policy": rng.choice(["tape", "tape", "first", "last", "adjacent"])}
     n_pos = rng.choice([1, 2, 3, 4, 5])
     return {
@@ -71,8 +71,8 @@ def gen_config(rng, tier, index=0):
         "ploidy": rng.choice([2, 2, 3, 4, 6]),
         "n_alleles": [rng.choice([2, 2, 2, 3, 4]) for _ in range(n_pos)],
         "hom_cols": [rng.random() < 0.5 for _ in range(n_pos)],
-        "depth": rng.choice([0, 1, 3, 6, 12, 25, 60]),
-        "fix_homozygous": rng.choice([0.51, 0.6, 0.9, 0.99, 0.999, 0.999, 1.0, 1.1]),
+        "depth": rng.choice([0, 1, 3, 6, 12, 25, 60, 120]),
+        "fix_homozygous": rng.choice([0.51, 0.6, 0.9, 0.99, 0.999, 0.999, 0.999999, 1.0, 1.0, 1.1]),
         "inbreeding": rng.choice([0.0, 0.0, 0.1, 0.5]),
         "counts": rng.choice(["none", "ints"]),
         "data_seed": rng.randrange(2 ** 31),
@@ -176,7 +176,18 @@ def run_breaks(ctx):
     with Seams() as seams:
         rng.install(seams, [])
         seams.set(np.random, "choice", choice)
-        out = structural.random_breaks(cfg["breaks"], cfg["n"])
+        if cfg["breaks"] >= cfg["n"]:
+            # n SNVs cannot be cut into more than n non-empty intervals: the only acceptable outcomes are a
+            # loud refusal or (impossible) a true partition - never a silent set with empty / overlapping intervals
+            try:
+                out = structural.random_breaks(cfg["breaks"], cfg["n"])
+            except ValueError:
+                ctx.counters.inc("impossible_breaks_refused")
+                ctx.log.add("breaks_refused", cfg["breaks"], cfg["n"])
+                ctx.key("breaks_refused", cfg["breaks"], cfg["n"])
+                return
+        else:
+            out = structural.random_breaks(cfg["breaks"], cfg["n"])
     ctx.log.add("breaks", cfg["breaks"], cfg["n"], out)
 
     class _S:
@@ -247,8 +258,14 @@ def run_fix(ctx):
     fixed_allele = {}
     near = False
     for j in range(n_pos):
-        hp = ref.snv_homozygosity(cols[j], counts_l if len(reads) else None, n_alleles[j], pl, F)
+        hp, margin = ref.snv_homozygosity(cols[j], counts_l if len(reads) else None, n_alleles[j], pl, F, with_margin=True)
         for a, p in enumerate(hp):
+            if p == 1.0 and thr == 1.0 and margin < -45.0:
+                # saturated: every other genotype is below 3e-20 of the total, so any float64 normalisation
+                # gives exactly 1.0, which reaches a threshold of 1.0
+                fixed_allele[j] = a
+                ctx.counters.inc("saturated_posterior_at_threshold_1")
+                continue
             if abs(p - thr) < 1e-9:
                 near = True
             if p >= thr:
